@@ -137,9 +137,9 @@ fn scenario(env: &Env, k: u64, case: u64, rng: &mut rand::rngs::SmallRng, d: &mu
         }
     }
     // plan
-    // one case in 16 is a flood: more than a thousand frames offered at one instant, so that a throughput-limited
+    // one case in 32 is a flood: more than a thousand frames offered at one instant, so that a throughput-limited
     // wire has a four-digit backlog (nothing in the statement lets a loss-free network shed load)
-    let flood = rng.chance(1, 16);
+    let flood = rng.chance(1, 32);
     let n_frames = if flood { rng.gen_range(1050..=1700usize) } else { *rng.pick(&[1usize, 5, 20, 60, 200]) };
     let burst = flood || rng.chance(1, 3);
     let mut plan: Vec<Planned> = vec![];
